@@ -36,6 +36,10 @@ def trace_cfgs(quick):
         {'name': 'euler-populated-then-empty', 'phases': ('B1', 'B3'), 'gammas': [0.15, 0.9], 'iterator': 'euler', 'segments': [1500.0]},
         {'name': 'euler-grain-boundary', 'phases': ('B1',), 'iterator': 'euler', 'segments': [2e3], 'site': 'grain boundaries', 'gamma': 0.22},
         {'name': 'euler-grain-corner-edge', 'phases': ('B1', 'B2'), 'gammas': [0.25, 0.2], 'sites': ['grain corners', 'grain edges'], 'iterator': 'euler', 'segments': [2e3]},
+        # two-stage ageing on one model object: a temperature change between two solve calls must not touch the distribution
+        {'name': 'euler-two-stage-ageing', 'phases': ('B1',), 'iterator': 'euler', 'segments': [600.0, 600.0], 'between': [[('setTemperature', (715.0,))]]},
+        # the package's own record of the size distribution (setPSDrecording) over extensions and re-meshes
+        {'name': 'euler-recorded-psd', 'phases': ('B1',), 'iterator': 'euler', 'segments': [2000.0, 2000.0], 'bins': (1e-10, 1e-9, 40, 30, 50), 'psdrecord': True},
         {'name': 'euler-heat-dissolve', 'phases': ('B1',), 'iterator': 'euler', 'segments': [3e3, 4e3], 'T': ([0, 0.8, 1.2, 2.0], [700.0, 700.0, 900.0, 900.0])},
     ]
     if not quick:
@@ -141,6 +145,26 @@ def oracle_trace(tr, tol=1e-9):
                 if out_top > 1.0 + 1e-9 * max(1.0, float(np.sum(Xg))):
                     v.append(('density_step_bound', 'loss through the upper end of the grid',
                               'step %d of run %s, phase %d: %.3e particles leave through the largest size class (it holds %.3e; the grid was not extended)' % (n, name, p, out_top, float(Xg[-1])), si))
+            # (0) the step starts from the distribution the previous step left behind: between two consecutive steps nothing but
+            #     the flux step (and the documented zeroing below the thresholds) may change a size class
+            if bef['psd'] is not None and len(it['X']) != int(np.sum(bef['bins'])):
+                if p == 0:
+                    v.append(('density_changes_only_by_transport', 'distribution replaced between steps',
+                              'step %d of run %s: the step starts from %d size classes in total, the previous step left %d (%r particles in phase 0): the distribution was rebuilt outside a step'
+                              % (n, name, len(it['X']), int(np.sum(bef['bins'])), float(np.sum(bef['psd'][0]))), si))
+            elif bef['psd'] is not None and len(split(it['X'], bef['bins'])[p]) == len(bef['psd'][p]):
+                X0 = split(it['X'], bef['bins'])[p]
+                held = np.array(bef['psd'][p], dtype=float).copy()
+                held[:bef['rdfi'][p] + 1] = 0
+                held[bef['size'][p] < m.constraints.minRadius] = 0
+                Xz = X0.copy()
+                Xz[:bef['rdfi'][p] + 1] = 0
+                Xz[bef['size'][p] < m.constraints.minRadius] = 0
+                if not np.allclose(Xz, held, rtol=1e-12, atol=0):
+                    k = int(np.argmax(np.abs(Xz - held)))
+                    v.append(('density_changes_only_by_transport', 'distribution replaced between steps',
+                              'step %d of run %s, phase %d: the step starts from a distribution holding %r particles, the previous step left %r (class %d: %r vs %r): particles appeared or vanished outside a step'
+                              % (n, name, p, float(np.sum(Xz)), float(np.sum(held)), k, float(Xz[k]), float(held[k])), si))
             # (ii) density change <= nucleation rate in force * step
             if rate is not None and np.isfinite(Nrec) and np.isfinite(Nprev):
                 bound = Nprev + dt * float(rate[p])
@@ -159,6 +183,52 @@ def oracle_trace(tr, tol=1e-9):
             # negative classes produced by the step itself
             if np.any(Xn[p] < -1e-9 * max(1.0, float(np.max(np.abs(Xn[p]))))):
                 pass
+    return v
+
+
+def oracle_record(tr, tol=1e-9):
+    """the package's own record of the size distribution (written through the public saveRecordedPSD): at every recorded time
+    the reported density and mean radius are the moments of the recorded distribution of that time"""
+    import tempfile
+    m = tr.model
+    v = []
+    name = tr.meta.get('name')
+    times = np.array(m.pData.time[:m.pData.n + 1], dtype=float)
+    for p in range(len(m.phases)):
+        with tempfile.TemporaryDirectory() as d:
+            f = os.path.join(d, 'rec.npz')
+            try:
+                m.PBM[p].saveRecordedPSD(f, compressed=False)
+                data = np.load(f)
+                rt, rb, rp = np.array(data['time']), np.array(data['bins']), np.array(data['PSD'])
+            except Exception as e:
+                return [('record_readable', 'saveRecordedPSD', 'run %s: the recorded size distribution of phase %d could not be written and read back: %r' % (name, p, e), 0)]
+        for k in range(len(rt)):
+            idx = np.nonzero(times == rt[k])[0]
+            if len(idx) != 1:
+                continue
+            n = int(idx[0])
+            nbnd = int(np.count_nonzero(rb[k] > 0))
+            if nbnd < 2:
+                continue
+            b = rb[k][:nbnd]
+            psd = rp[k][:nbnd - 1]
+            r = 0.5 * (b[1:] + b[:-1])
+            M0 = float(np.sum(psd))
+            Nrec = float(m.pData.precipitateDensity[n, p])
+            if Nrec < m.constraints.minNucleateDensity and M0 < m.constraints.minNucleateDensity:
+                continue
+            if abs(Nrec - M0) > tol * max(M0, Nrec) + len(psd):
+                v.append(('stats_are_moments', 'recorded distribution vs density',
+                          'run %s, phase %d, recorded time %r (step %d): reported number density %r, zeroth moment of the distribution recorded for that time %r (%d classes)' % (name, p, float(rt[k]), n, Nrec, M0, len(psd)), n))
+            elif M0 > 1e3 and Nrec >= m.constraints.minNucleateDensity:
+                Rrec = float(m.pData.Ravg[n, p])
+                Rm = float(np.sum(psd * r) / M0)
+                if abs(Rrec - Rm) > 1e-6 * Rm + len(psd) * r[-1] / M0:
+                    v.append(('stats_are_moments', 'recorded distribution vs mean radius',
+                              'run %s, phase %d, recorded time %r (step %d): reported mean radius %r, first/zeroth moment of the distribution recorded for that time %r' % (name, p, float(rt[k]), n, Rrec, Rm), n))
+            if len(v) > 3:
+                return v
     return v
 
 
@@ -183,8 +253,11 @@ def run(ctx):
         ctx.hist('trace', '%s: %d steps, %d grid changes' % (cfg['name'], ns, remesh))
         for h in oracle_trace(tr):
             hits.append((cfg['name'], h))
+        if cfg.get('psdrecord'):
+            for h in oracle_record(tr):
+                hits.append((cfg['name'], h))
         if cfg.get('iterator', 'euler') == 'euler':
-            take = 25 if quick else 250
+            take = 18 if quick else 250
             idx = sorted(set(int(i) for i in np.linspace(1, ns - 1, take))) if ns > 2 else []
             for si in idx:
                 for t, key in step_terms(tr, si):
